@@ -11,6 +11,8 @@ import ScyllaVerif.Proofs.Pool
 import ScyllaVerif.Model.Routing
 import ScyllaVerif.Proofs.PoolRefiller
 import ScyllaVerif.Props.C02
+import ScyllaVerif.Model.Retry
+import ScyllaVerif.Model.Exec
 /-!
 # C10 — when a connection dies every request in flight on it fails promptly; none hangs
 
@@ -432,6 +434,53 @@ theorem cut_then_eof (c : Conn) (h : Inv c) (hb : c.broken = false) (frames : Li
     rw [heq]
     exact readerEnd_keeps this (by intro e; cases e) _ _
 
+/-! ### bytes -/
+
+theorem encodeAll_mem_split (fs : List Frame) (f : Frame) (hf : f ∈ fs) :
+    ∃ pre post, encodeAll fs = pre ++ encode f ++ post := by
+  induction fs with
+  | nil => cases hf
+  | cons g rest ih =>
+    rcases List.mem_cons.mp hf with e | m
+    · subst e; exact ⟨[], encodeAll rest, by simp [encodeAll]⟩
+    · obtain ⟨pre, post, h⟩ := ih m
+      exact ⟨encode g ++ pre, post, by simp [encodeAll] at h ⊢; rw [h]⟩
+
+/-- BYTE-LEVEL IDENTITY OF A RESPONSE. Whatever bytes arrive: if, after the reader has processed them, caller `r`
+holds a response it did not hold before, then the frame it was handed (`answerOf`: the first whole frame on the
+stream that carried `r`'s request) is one of the frames the reader returned, it is on the stream of an entry
+`(stream, r)` outstanding at the server, and its exact encoding — validated header and the whole body — is a
+contiguous slice of the bytes the peer sent. The model's `Outcome.frame r` names the request; this theorem names the
+bytes behind it. -/
+theorem delivered_frame_was_sent (c : Conn) (h : Inv c) (bytes : List UInt8) (eof : Bool) (r g : Nat)
+    (hnew : holds (reader c bytes eof).1 r g) (hold : ¬ holds c r g) :
+    g = r ∧ ∃ f, answerOf c (readFrames bytes).1 r = some f ∧ f ∈ (readFrames bytes).1 ∧ 0 ≤ f.stream ∧
+      (f.stream.toNat, r) ∈ c.server ∧ ∃ pre post, bytes = pre ++ encode f ++ post := by
+  have hinv := inv_reader h bytes eof
+  refine ⟨hinv.callers.own r g hnew, ?_⟩
+  rw [reader_eq] at hnew
+  rcases (deliverFrames_effect h _).2 r g (readerEnd_holds _ _ r g hnew) with h0 | ⟨f0, hf0, hp0, hm0⟩
+  · exact absurd h0 hold
+  · -- some frame qualifies, so `find?` returns one, and whatever it returns qualifies
+    have hex : ∃ f, answerOf c (readFrames bytes).1 r = some f := by
+      unfold answerOf
+      cases hfind : (readFrames bytes).1.find?
+          (fun f => decide (0 ≤ f.stream) && c.server.contains (f.stream.toNat, r)) with
+      | some f => exact ⟨f, rfl⟩
+      | none =>
+        exfalso
+        have := List.find?_eq_none.mp hfind f0 hf0
+        simp [hp0] at this
+        exact this hm0
+    obtain ⟨f, hf⟩ := hex
+    have hmem : f ∈ (readFrames bytes).1 := List.mem_of_find?_eq_some hf
+    have hprop := List.find?_some hf
+    simp only [Bool.and_eq_true, decide_eq_true_eq] at hprop
+    have hsrv : (f.stream.toNat, r) ∈ c.server := by simpa using hprop.2
+    obtain ⟨rest, hb⟩ := readFrames_exact bytes
+    obtain ⟨pre, post, hsp⟩ := encodeAll_mem_split _ f hmem
+    exact ⟨f, hf, hmem, hprop.1, hsrv, pre, post ++ rest, by rw [hb, hsp]; simp⟩
+
 /-- non-vacuity: three requests, the server answers 2 then 0, the stream is cut inside the second frame's body and
 closed: request 2 holds its response, 0 and 1 hold the connection error. -/
 example :
@@ -498,33 +547,78 @@ example :
   refine ⟨by decide +kernel, by decide +kernel, negative_stream_ignored _ _ (by decide), ?_⟩
   rw [negative_stream_ignored _ _ (by decide)]; decide +kernel
 
-/-! ## 6. the keepaliver (`Model/ConnIO.lean` `kaTurn`) -/
+/-! ### the event stream (a connection with an event sender) -/
 
 theorem break_cause {c : Conn} (hb : c.broken = false) (k : BreakKind) : (step c (.break_ k)).cause = some k := by
   simp only [step, hb, Bool.false_eq_true, if_false]
   rfl
 
+
+/-- A well-formed EVENT on stream -1 is forwarded; the request path does not notice. -/
+theorem wellformed_event_is_harmless (eventOk : Frame → Bool) (c : Conn) (f : Frame) (hs : f.stream = -1)
+    (hok : eventOk f = true) : deliverFrameEv eventOk c f = c := by
+  unfold deliverFrameEv
+  simp only [hs, if_true, hok]
+  split <;> rfl
+
+/-- Anything else on stream -1 (a non-EVENT opcode, a body that does not parse as an event) ends the router with
+`CqlEventHandlingError`, and nobody is left waiting. -/
+theorem malformed_event_breaks (eventOk : Frame → Bool) (c : Conn) (h : Inv c) (hb : c.broken = false) (f : Frame)
+    (hs : f.stream = -1) (hbad : eventOk f = false) :
+    (deliverFrameEv eventOk c f).broken = true ∧
+    (deliverFrameEv eventOk c f).cause = some .cqlEventHandlingError ∧
+    ∀ r, getCaller (deliverFrameEv eventOk c f).callers r = some .waiting →
+      r ∈ (deliverFrameEv eventOk c f).permits := by
+  have e : deliverFrameEv eventOk c f = step c (.break_ .cqlEventHandlingError) := by
+    unfold deliverFrameEv
+    simp only [hs, if_true, hb, Bool.false_eq_true, if_false, hbad]
+  rw [e]
+  exact ⟨break_sets_broken _ _, break_cause hb _, fun r hw =>
+    inv_broken_waiter _ (h.step _) (break_sets_broken _ _) r hw⟩
+
+/-- On every other stream the event sender changes nothing. -/
+theorem event_sender_only_matters_on_stream_minus_one (eventOk : Frame → Bool) (c : Conn) (f : Frame)
+    (hs : f.stream ≠ -1) : deliverFrameEv eventOk c f = deliverFrame c f := by
+  unfold deliverFrameEv; simp [hs]
+
+/-! ## 6. the keepaliver (`Model/ConnIO.lean` `kaTurn`) -/
+
 /-- A due tick — or a hint (`trigger_keepalive`) at any time — issues the keep-alive request (an ordinary request:
 fresh id; queued, or parked if the submit channel is full), arms the timeout, and schedules the next periodic probe
-at most one interval later (exactly one interval later after a hint: `interval.reset()`); the hint is consumed. -/
+at most one interval later (exactly one interval later after a hint: `interval.reset()`); the hint is consumed —
+unless a tick was due at the same instant and `select!` drew the tick arm (`preferTick`): then the hint stays stored
+for the next round. All other conclusions hold for BOTH draws. -/
 theorem keepalive_tick (k : KaSt) (hb : k.c.broken = false) (hp : k.pending = none)
     (ht : k.hint = true ∨ k.clock ≥ k.next) :
     (kaTurn k).c = step k.c (if k.full then .submitFull else .submit) ∧
     (kaTurn k).pending = some (k.c.nextReq, k.clock + k.timeout) ∧
     (kaTurn k).next ≤ k.clock + k.interval ∧ (kaTurn k).clock = k.clock ∧
-    (k.hint = true → (kaTurn k).next = k.clock + k.interval ∧ (kaTurn k).hint = false) := by
+    (k.hint = true → (k.preferTick = false ∨ k.clock < k.next) →
+      (kaTurn k).next = k.clock + k.interval ∧ (kaTurn k).hint = false) ∧
+    (k.hint = true → k.preferTick = true → k.clock ≥ k.next → (kaTurn k).hint = true) := by
   unfold kaTurn
   simp only [hb, Bool.false_eq_true, if_false, hp]
-  cases hh : k.hint with
-  | true => simp
-  | false =>
+  by_cases harm : (k.hint && !(k.preferTick && decide (k.clock ≥ k.next))) = true
+  · simp only [harm, if_true]
+    refine ⟨trivial, trivial, Nat.le_refl _, trivial, fun _ _ => ⟨trivial, trivial⟩, ?_⟩
+    intro h1 h2 h3
+    simp [h1, h2, h3] at harm
+  · simp only [harm, Bool.false_eq_true, if_false]
     have ht' : k.clock ≥ k.next := by
       rcases ht with h | h
-      · rw [hh] at h; cases h
+      · simp only [h, Bool.true_and, Bool.not_eq_true', Bool.not_eq_false, Bool.and_eq_true,
+          decide_eq_true_eq] at harm
+        exact harm.2
       · exact h
-    simp only [Bool.false_eq_true, if_false, ht', if_true]
-    refine ⟨trivial, trivial, ?_, trivial, fun h => by cases h⟩
-    split <;> omega
+    simp only [ht', if_true]
+    refine ⟨trivial, trivial, ?_, trivial, ?_, ?_⟩
+    · split <;> omega
+    · intro h1 h2
+      exfalso
+      rcases h2 with h2 | h2
+      · simp [h1, h2] at harm
+      · omega
+    · intro h1 _ _; exact h1
 
 /-- Without a hint and before the tick is due the keepaliver does nothing; a hint that arrives while a probe is in
 flight stays stored (one permit) and is consumed by the next iteration. -/
@@ -624,7 +718,7 @@ theorem keepalive_exhausted_ids_breaks (k : KaSt) (h : Inv k.c) (hb : k.c.broken
     k2.c.broken = true ∧ k2.c.cause = some .keepaliveRequestError ∧
     ∀ r', getCaller k2.c.callers r' = some .waiting → r' ∈ k2.c.permits := by
   intro k1 k2
-  obtain ⟨hc, hpend, _, _, _⟩ := keepalive_tick k hb hp ht
+  obtain ⟨hc, hpend, _, _, _, _⟩ := keepalive_tick k hb hp ht
   have hc1 : k1.c = step k.c .submit := by show (kaTurn k).c = _; rw [hc, hfull]; rfl
   have hsub : step k.c .submit =
       { k.c with nextReq := k.c.nextReq + 1, queue := k.c.queue ++ [k.c.nextReq],
@@ -670,7 +764,7 @@ theorem keepalive_stall_breaks (k : KaSt) (h : Inv k.c) (hp : k.pending = none)
     rw [e2]
     exact ⟨hb2, fun r' hw => inv_broken_waiter _ (h.run evs) hb2 r' hw⟩
   | false =>
-    obtain ⟨hc, hpend, _, hclk, _⟩ := keepalive_tick k hb hp ht
+    obtain ⟨hc, hpend, _, hclk, _, _⟩ := keepalive_tick k hb hp ht
     have hinv : Inv (run k1.c evs) := by
       show Inv (run (kaTurn k).c evs)
       rw [hc]; exact (h.step _).run evs
@@ -794,5 +888,66 @@ example :
     1 ∈ p.shared ∧ 1 ∈ p.dead ∧ p.pending = [] ∧ p.conns = [0, 2] := by decide
 
 end pool
+
+/-! ## 8. "… and is retried elsewhere only as the retry policy allows" — composition with the request fiber of C06
+
+`Model/Exec.lean` / `Model/Retry.lean` (the models of `execution.rs` `run_request_speculative_fiber` and of the retry
+policies, owned and tied to the code by C06) take over where this model ends: the caller of a dead connection gets
+`InternalRequestError::BrokenConnection(..)` (`err (.broken k)` or `err .channelError` here, `break_outcomes`), which
+`RequestAttemptError::from` turns into `RequestAttemptError::BrokenConnection`. -/
+
+section retry
+open ScyllaVerif.Retry ScyllaVerif.Exec
+
+/-- `impl From<InternalRequestError> for RequestAttemptError` restricted to what a connection hands its callers. -/
+def attemptErr : ErrKind → Retry.Err
+  | .unableToAllocStreamId => .unableToAllocStreamId
+  | .broken _ => .brokenConnection
+  | .channelError => .brokenConnection
+
+/-- Every error that the break of a connection hands out is a `BrokenConnection` for the retry policy. -/
+theorem break_errors_are_broken_connection (c : Conn) (h : Inv c) (k : BreakKind) (r : Nat)
+    (hw : getCaller c.callers r = some .waiting) (hp : r ∉ c.permits) :
+    ∃ e, getCaller (doBreak c k).callers r = some (.delivered (.err e)) ∧ attemptErr e = .brokenConnection := by
+  rcases break_fails_waiters c h k r hw hp with h1 | h1
+  · exact ⟨_, h1, rfl⟩
+  · exact ⟨_, h1, rfl⟩
+
+/-- The default retry policy on a `BrokenConnection` (non-serial consistency): next target if the request is
+idempotent, give up otherwise — whatever the retry session has seen before. -/
+theorem default_policy_on_broken_connection (s : Sess) (idem : Bool) (cl : Consistency) (hcl : cl.isSerial = false) :
+    (decideRetry .default s ⟨.brokenConnection, idem, cl⟩).2 = if idem then .retryNext none else .dontRetry := by
+  simp [decideRetry, decideDefault, hcl]
+
+/-- THE SESSION KEEPS WORKING THROUGH THE REMAINING CONNECTIONS. The request fiber of `execution.rs`, default retry
+policy, non-serial consistency: the attempt on the current target fails because its connection died. An IDEMPOTENT
+request goes on with the NEXT target of the plan (same consistency, the dead target is not tried again), and a
+following success completes it; a NON-idempotent request is not re-sent anywhere: the fiber stops with that error. -/
+theorem broken_connection_is_retried_on_next_target (outcomes : Nat → Exec.Outcome) (fuel : Nat) (av : Target)
+    (rest : List Target) (t : Nat) (loc : Loc Sess) (e : ErrKind) (he : attemptErr e = .brokenConnection)
+    (hav : av 0 = true) (hout : outcomes loc.k = .fail (attemptErr e)) (hcl : loc.cl.isSerial = false) :
+    exec (builtin .default) true outcomes (fuel + 1) (av :: rest) t loc =
+      (exec (builtin .default) true outcomes fuel rest (t + 1)
+          ⟨loc.k + 1, loc.cl, some (loc.sess.getD Sess.init), some (.attempt .brokenConnection)⟩).push
+        ⟨t, loc.cl⟩ (.retryNext none) (if loc.sess.isSome then 0 else 1) ∧
+    exec (builtin .default) false outcomes (fuel + 1) (av :: rest) t loc =
+      ⟨[⟨t, loc.cl⟩], [.dontRetry], .stopped .brokenConnection, if loc.sess.isSome then 0 else 1⟩ := by
+  rw [he] at hout
+  constructor
+  · simp [exec, hav, hout, builtin, decideRetry, decideDefault, hcl, Decision.newCl]
+  · simp [exec, hav, hout, builtin, decideRetry, decideDefault, hcl]
+
+/-- non-vacuity: a plan of three nodes; the connection to the first dies under the request (`KeepaliveTimeout`), the
+second answers: the idempotent request completes on target 1 after one `RetryNextTarget`; the non-idempotent one
+ends with `BrokenConnection` after a single attempt. -/
+example :
+    let outs : Nat → Exec.Outcome := fun k => if k = 0 then .fail (attemptErr (.broken .keepaliveTimeout)) else .ok
+    let plan := [Target.always, Target.always, Target.always]
+    (Exec.run .default true .quorum plan outs).final = .completed 1 ∧
+    (Exec.run .default true .quorum plan outs).attempts = [⟨0, .quorum⟩, ⟨1, .quorum⟩] ∧
+    (Exec.run .default false .quorum plan outs).final = .stopped .brokenConnection ∧
+    (Exec.run .default false .quorum plan outs).attempts = [⟨0, .quorum⟩] := by decide
+
+end retry
 
 end ScyllaVerif.Props.C10
